@@ -81,6 +81,19 @@ PROPS = {
         ],
         trusted=STD_TRUST,
     ),
+    "C12": dict(
+        units=["parse"],
+        level="proof",
+        min_obligations=10,
+        replay_family="c12",
+        explanation="parse_whitespace is verified equal to the declarative trivia skipper skip_trivia (space, tab, CR, LF, FF and ;-comments incl. a "
+                    "final comment without newline); the symbol scanners are verified against sym_run/sym_term, where sym_term is REQUIRED by the spec to "
+                    "contain every trivia byte and every delimiter the printer can emit after a token, so inserting trivia at a token boundary cannot "
+                    "change where a symbol ends; the iteration entry points (next_value loop, value_iter, datum_iter, Iterator for Parser) carry "
+                    "progress/termination clauses.",
+        assumptions=["the concatenation clause for structured values relies on the C01 round-trip lemmas (claimed there)"],
+        trusted=STD_TRUST,
+    ),
 }
 
 
